@@ -11,6 +11,7 @@ import (
 	"sync/atomic"
 	"time"
 
+	sdkmath "cosmossdk.io/math"
 	storetypes "cosmossdk.io/store/types"
 	abci "github.com/cometbft/cometbft/abci/types"
 	cmttypes "github.com/cometbft/cometbft/types"
@@ -93,6 +94,7 @@ type c16L1State struct {
 }
 
 type c16L1Sys struct {
+	dev    bool // the root also offers the field-deviation family (one unusual-but-legal field per message)
 	rich   bool // root: two bridges, each with deposits, a final output, a paid withdrawal, a batch-info change
 	empty  bool // root: a chain on which no bridge has been created yet
 	tree   *wtree
@@ -211,13 +213,140 @@ func (y *c16L1Sys) Letters(s *c16L1State) []engine.Letter {
 	for _, op := range y.ops() {
 		ls = append(ls, engine.Letter{Name: op.name, Data: op})
 	}
+	if y.dev && s.depth == 0 {
+		for _, op := range y.devOps() {
+			ls = append(ls, engine.Letter{Name: op.name, Data: op})
+		}
+	}
 	ls = append(ls, engine.Letter{Name: "Advance(11s)", Data: nil})
 	return ls
 }
 
+// devOps: every message type once per unusual-but-legal value of one of its fields (boundary numbers,
+// empty / long / non-ASCII / upper-case strings, undeclared enum values, empty and repeated list entries).
+// Whatever the chain accepts must still export, validate, import and behave the same.
+func (y *c16L1Sys) devOps() []c16L1Op {
+	a := func(n string) string { return world.Addr(n).String() }
+	var ops []c16L1Op
+	add := func(name string, f func(s *c16L1State) sdk.Msg) { ops = append(ops, c16L1Op{name, f}) }
+	long := strings.Repeat("ü/", 100)
+	cfgDev := func(name string, mod func(c *ophosttypes.BridgeConfig)) {
+		add("CreateBridge["+name+"]", func(s *c16L1State) sdk.Msg {
+			c := world.BridgeConfig("proposer", "challenger", 10*time.Second)
+			mod(&c)
+			return ophosttypes.NewMsgCreateBridge(a("creator"), c)
+		})
+	}
+	cfgDev("metadata=1 byte", func(c *ophosttypes.BridgeConfig) { c.Metadata = []byte{0xff} })
+	cfgDev("metadata=5000 bytes", func(c *ophosttypes.BridgeConfig) { c.Metadata = bytes.Repeat([]byte{0x80}, 5000) })
+	cfgDev("metadata=empty non-nil", func(c *ophosttypes.BridgeConfig) { c.Metadata = []byte{} })
+	cfgDev("proposer=challenger", func(c *ophosttypes.BridgeConfig) { c.Proposer = c.Challenger })
+	cfgDev("proposer upper case", func(c *ophosttypes.BridgeConfig) { c.Proposer = strings.ToUpper(c.Proposer) })
+	cfgDev("submitter=non-ASCII", func(c *ophosttypes.BridgeConfig) { c.BatchInfo.Submitter = long })
+	cfgDev("submitter=empty", func(c *ophosttypes.BridgeConfig) { c.BatchInfo.Submitter = "" })
+	cfgDev("chain type=unspecified", func(c *ophosttypes.BridgeConfig) { c.BatchInfo.ChainType = 0 })
+	cfgDev("chain type=3", func(c *ophosttypes.BridgeConfig) { c.BatchInfo.ChainType = 3 })
+	cfgDev("period=1ns", func(c *ophosttypes.BridgeConfig) { c.FinalizationPeriod = 1 })
+	cfgDev("period=max", func(c *ophosttypes.BridgeConfig) { c.FinalizationPeriod = math.MaxInt64 })
+	cfgDev("interval=1ns", func(c *ophosttypes.BridgeConfig) { c.SubmissionInterval = 1 })
+	cfgDev("interval=max", func(c *ophosttypes.BridgeConfig) { c.SubmissionInterval = math.MaxInt64 })
+	cfgDev("interval=0", func(c *ophosttypes.BridgeConfig) { c.SubmissionInterval = 0 })
+	cfgDev("start height=0", func(c *ophosttypes.BridgeConfig) { c.SubmissionStartHeight = 0 })
+	cfgDev("start height=max", func(c *ophosttypes.BridgeConfig) { c.SubmissionStartHeight = math.MaxUint64 })
+	cfgDev("oracle enabled", func(c *ophosttypes.BridgeConfig) { c.OracleEnabled = true })
+	for _, d := range []struct {
+		name string
+		to   string
+		coin sdk.Coin
+		data []byte
+	}{
+		{"to=one space", " ", world.Coin("uxx", 1), nil},
+		{"to=non-ASCII 300 bytes", long, world.Coin("uxx", 1), nil},
+		{"amount=0", "l2addr", world.Coin("uxx", 0), nil},
+		{"amount=all the sender has", "l2addr", world.Coin("uyy", 90), nil},
+		{"data=10 kB", "l2addr", world.Coin("uxx", 1), bytes.Repeat([]byte{0xfe}, 10_000)},
+		{"data=empty non-nil", "l2addr", world.Coin("uxx", 1), []byte{}},
+		{"denom nobody holds", "l2addr", world.Coin("ibc/27394FB092D2ECCD56123C74F36E4C1F926001CEADA9CA97EA622B25F41E5EB2", 1), nil},
+	} {
+		d := d
+		add("Deposit(b1)["+d.name+"]", func(s *c16L1State) sdk.Msg { return ophosttypes.NewMsgInitiateTokenDeposit(a("alice"), 1, d.to, d.coin, d.data) })
+	}
+	for _, p := range []struct {
+		name string
+		l2   uint64
+		root []byte
+	}{
+		{"l2 block=max", math.MaxUint64, y.tree.OutputRoot[:]},
+		{"l2 block=next possible", 0, y.tree.OutputRoot[:]},
+		{"root=zeros", 1 << 40, make([]byte, 32)},
+		{"root=ff", 1 << 41, bytes.Repeat([]byte{0xff}, 32)},
+	} {
+		p := p
+		add("Propose(b1)["+p.name+"]", func(s *c16L1State) sdk.Msg {
+			n, _ := s.w.HK.GetNextOutputIndex(s.ctx, 1)
+			l2 := p.l2
+			if l2 == 0 {
+				if n > 1 {
+					if o, err := s.w.HK.GetOutputProposal(s.ctx, 1, n-1); err == nil {
+						l2 = o.L2BlockNumber + 1
+					}
+				}
+			}
+			return ophosttypes.NewMsgProposeOutput(a("proposer"), 1, n, l2, p.root)
+		})
+	}
+	for _, b := range []struct {
+		name string
+		bi   ophosttypes.BatchInfo
+	}{
+		{"submitter=empty", ophosttypes.BatchInfo{Submitter: "", ChainType: ophosttypes.BatchInfo_CHAIN_TYPE_CELESTIA}},
+		{"submitter=non-ASCII", ophosttypes.BatchInfo{Submitter: long, ChainType: ophosttypes.BatchInfo_CHAIN_TYPE_CELESTIA}},
+		{"chain type=unspecified", ophosttypes.BatchInfo{Submitter: a("submitter"), ChainType: 0}},
+		{"chain type=3", ophosttypes.BatchInfo{Submitter: a("submitter"), ChainType: 3}},
+		{"same as current", ophosttypes.BatchInfo{Submitter: a("submitter"), ChainType: ophosttypes.BatchInfo_CHAIN_TYPE_INITIA}},
+	} {
+		b := b
+		add("UpdateBatchInfo(b1)["+b.name+"]", func(s *c16L1State) sdk.Msg { return ophosttypes.NewMsgUpdateBatchInfo(s.w.Authority, 1, b.bi) })
+	}
+	for _, m := range []struct {
+		name string
+		md   []byte
+	}{{"nil", nil}, {"empty non-nil", []byte{}}, {"5000 bytes", bytes.Repeat([]byte{0x80}, 5000)}, {"5001 bytes", bytes.Repeat([]byte{0x80}, 5001)}, {"one zero byte", []byte{0}}} {
+		m := m
+		add("UpdateMetadata(b1)["+m.name+"]", func(s *c16L1State) sdk.Msg { return ophosttypes.NewMsgUpdateMetadata(s.w.Authority, 1, m.md) })
+	}
+	add("UpdateProposer(b1)[upper case]", func(s *c16L1State) sdk.Msg {
+		return ophosttypes.NewMsgUpdateProposer(s.w.Authority, 1, strings.ToUpper(a("proposer2")))
+	})
+	add("UpdateProposer(b1)[to the challenger]", func(s *c16L1State) sdk.Msg { return ophosttypes.NewMsgUpdateProposer(s.w.Authority, 1, a("challenger")) })
+	add("UpdateChallenger(b1)[upper case]", func(s *c16L1State) sdk.Msg {
+		return ophosttypes.NewMsgUpdateChallenger(s.w.Authority, 1, strings.ToUpper(a("challenger2")))
+	})
+	add("UpdateOracleConfig(b1)[off while off]", func(s *c16L1State) sdk.Msg { return ophosttypes.NewMsgUpdateOracleConfig(s.w.Authority, 1, false) })
+	for _, f := range []struct {
+		name string
+		fee  sdk.Coins
+	}{
+		{"fee=none", sdk.Coins{}},
+		{"fee=nil", nil},
+		{"fee=two denoms", sdk.NewCoins(world.Coin("uxx", 1), world.Coin("uyy", 2))},
+		{"fee=2^64", sdk.NewCoins(sdk.NewCoin("uxx", sdkmath.NewIntFromUint64(math.MaxUint64).AddRaw(1)))},
+		{"fee=unsorted", sdk.Coins{world.Coin("uyy", 2), world.Coin("uxx", 1)}},
+		{"fee=zero coin", sdk.Coins{world.Coin("uxx", 0)}},
+		{"fee=same denom twice", sdk.Coins{world.Coin("uxx", 1), world.Coin("uxx", 2)}},
+	} {
+		f := f
+		add("UpdateParams["+f.name+"]", func(s *c16L1State) sdk.Msg {
+			return ophosttypes.NewMsgUpdateParams(s.w.Authority, &ophosttypes.Params{RegistrationFee: f.fee})
+		})
+	}
+	add("RecordBatch", func(s *c16L1State) sdk.Msg { return ophosttypes.NewMsgRecordBatch(a("submitter"), 1, []byte{1, 2, 3}) })
+	return ops
+}
+
 func (y *c16L1Sys) Step(s *c16L1State, l engine.Letter) (*c16L1State, string, *engine.Violation) {
 	ctx, _ := s.ctx.CacheContext()
-	c := &c16L1State{ctx: ctx, w: s.w, nbr: s.nbr}
+	c := &c16L1State{ctx: ctx, w: s.w, nbr: s.nbr, depth: s.depth + 1}
 	if l.Data == nil {
 		c.ctx = world.Advance(ctx, 11*time.Second)
 		return c, "ok", nil
@@ -428,11 +557,13 @@ func diffAround(a, b string) string {
 // ------------------------------------------------------------------------------------------ L2
 
 type c16L2State struct {
-	ctx sdk.Context
-	w   *world.L2
+	ctx   sdk.Context
+	w     *world.L2
+	depth int
 }
 
 type c16L2Sys struct {
+	dev    bool // as c16L1Sys.dev
 	blank  map[*world.L2]*world.L2
 	mu     sync.Mutex
 	clones atomic.Int64
@@ -503,6 +634,110 @@ func (y *c16L2Sys) Letters(s *c16L2State) []engine.Letter {
 			return n, err == ""
 		}},
 	}
+	if y.dev && s.depth == 0 {
+		long := strings.Repeat("ü/", 100)
+		up := func(name string, mod func(p *opchildtypes.Params)) {
+			ops = append(ops, c16L2Op{"UpdateParams[" + name + "]", deliver(func(s *c16L2State, ctx sdk.Context) sdk.Msg {
+				p, _ := s.w.K.GetParams(ctx)
+				mod(&p)
+				return opchildtypes.NewMsgUpdateParams(s.w.Authority, &p)
+			})})
+		}
+		up("max validators=1", func(p *opchildtypes.Params) { p.MaxValidators = 1 })
+		up("max validators=0", func(p *opchildtypes.Params) { p.MaxValidators = 0 })
+		up("max validators=100", func(p *opchildtypes.Params) { p.MaxValidators = 100 })
+		up("historical entries=0", func(p *opchildtypes.Params) { p.HistoricalEntries = 0 })
+		up("historical entries=max", func(p *opchildtypes.Params) { p.HistoricalEntries = math.MaxUint32 })
+		up("min gas prices=none", func(p *opchildtypes.Params) { p.MinGasPrices = sdk.DecCoins{} })
+		up("min gas prices=nil", func(p *opchildtypes.Params) { p.MinGasPrices = nil })
+		up("min gas prices=two denoms", func(p *opchildtypes.Params) {
+			p.MinGasPrices = sdk.NewDecCoins(sdk.NewInt64DecCoin("umin", 2), sdk.NewInt64DecCoin("uother", 1))
+		})
+		up("min gas prices=smallest fraction", func(p *opchildtypes.Params) {
+			p.MinGasPrices = sdk.DecCoins{sdk.NewDecCoinFromDec("umin", sdkmath.LegacyNewDecWithPrec(1, 18))}
+		})
+		up("min gas prices=10^60", func(p *opchildtypes.Params) {
+			h, _ := sdkmath.NewIntFromString("1" + strings.Repeat("0", 60))
+			p.MinGasPrices = sdk.DecCoins{sdk.NewDecCoin("umin", h)}
+		})
+		up("min gas prices=zero price", func(p *opchildtypes.Params) { p.MinGasPrices = sdk.DecCoins{sdk.NewInt64DecCoin("umin", 0)} })
+		up("min gas prices=unsorted", func(p *opchildtypes.Params) {
+			p.MinGasPrices = sdk.DecCoins{sdk.NewInt64DecCoin("uzz", 1), sdk.NewInt64DecCoin("uaa", 1)}
+		})
+		up("executors=repeated", func(p *opchildtypes.Params) { p.BridgeExecutors = []string{ex, ex} })
+		up("executors=none", func(p *opchildtypes.Params) { p.BridgeExecutors = []string{} })
+		up("executors=upper case", func(p *opchildtypes.Params) { p.BridgeExecutors = []string{strings.ToUpper(ex)} })
+		up("executors=with an empty entry", func(p *opchildtypes.Params) { p.BridgeExecutors = []string{ex, ""} })
+		up("admin=upper case", func(p *opchildtypes.Params) { p.Admin = strings.ToUpper(world.Addr("admin").String()) })
+		up("admin=empty", func(p *opchildtypes.Params) { p.Admin = "" })
+		up("whitelist=repeated", func(p *opchildtypes.Params) { p.FeeWhitelist = []string{alice, alice} })
+		up("whitelist=upper case", func(p *opchildtypes.Params) { p.FeeWhitelist = []string{strings.ToUpper(alice)} })
+		up("whitelist=validator-prefixed address", func(p *opchildtypes.Params) { p.FeeWhitelist = []string{valOf("o1")} })
+		up("whitelist=empty non-nil", func(p *opchildtypes.Params) { p.FeeWhitelist = []string{} })
+		up("hook gas=0", func(p *opchildtypes.Params) { p.HookMaxGas = 0 })
+		up("hook gas=max", func(p *opchildtypes.Params) { p.HookMaxGas = math.MaxUint64 })
+		info := func(name string, mod func(b *opchildtypes.BridgeInfo)) {
+			ops = append(ops, c16L2Op{"SetBridgeInfo[" + name + "]", deliver(func(s *c16L2State, ctx sdk.Context) sdk.Msg {
+				b := c12Info("07-tendermint-0")
+				mod(&b)
+				return opchildtypes.NewMsgSetBridgeInfo(ex, b)
+			})})
+		}
+		info("client id=empty", func(b *opchildtypes.BridgeInfo) { b.L1ClientId = "" })
+		info("client id=non-ASCII", func(b *opchildtypes.BridgeInfo) { b.L1ClientId = long })
+		info("chain id=one space", func(b *opchildtypes.BridgeInfo) { b.L1ChainId = " " })
+		info("chain id=non-ASCII", func(b *opchildtypes.BridgeInfo) { b.L1ChainId = long })
+		info("bridge id=max", func(b *opchildtypes.BridgeInfo) {
+			b.BridgeId = math.MaxUint64
+			b.BridgeAddr = sdk.AccAddress(ophosttypes.BridgeAddress(math.MaxUint64)).String()
+		})
+		info("bridge address=upper case", func(b *opchildtypes.BridgeInfo) { b.BridgeAddr = strings.ToUpper(b.BridgeAddr) })
+		info("bridge address of another id", func(b *opchildtypes.BridgeInfo) { b.BridgeAddr = sdk.AccAddress(ophosttypes.BridgeAddress(2)).String() })
+		info("metadata=5000 bytes", func(b *opchildtypes.BridgeInfo) { b.BridgeConfig.Metadata = bytes.Repeat([]byte{0x80}, 5000) })
+		info("chain type=unspecified", func(b *opchildtypes.BridgeInfo) { b.BridgeConfig.BatchInfo.ChainType = 0 })
+		info("chain type=3", func(b *opchildtypes.BridgeInfo) { b.BridgeConfig.BatchInfo.ChainType = 3 })
+		info("period=1ns", func(b *opchildtypes.BridgeInfo) { b.BridgeConfig.FinalizationPeriod = 1 })
+		info("period=max", func(b *opchildtypes.BridgeInfo) { b.BridgeConfig.FinalizationPeriod = math.MaxInt64 })
+		info("submitter=non-ASCII", func(b *opchildtypes.BridgeInfo) { b.BridgeConfig.BatchInfo.Submitter = long })
+		info("proposer=upper case", func(b *opchildtypes.BridgeInfo) { b.BridgeConfig.Proposer = strings.ToUpper(b.BridgeConfig.Proposer) })
+		for _, m := range []struct{ name, moniker string }{{"moniker=empty", ""}, {"moniker=70 characters", strings.Repeat("m", 70)}, {"moniker=71 characters", strings.Repeat("m", 71)}, {"moniker=non-ASCII", "验证者 ü"}} {
+			m := m
+			ops = append(ops, c16L2Op{"AddValidator(o2,k2)[" + m.name + "]", deliver(func(s *c16L2State, ctx sdk.Context) sdk.Msg {
+				mm, _ := opchildtypes.NewMsgAddValidator(m.moniker, s.w.Authority, valOf("o2"), world.EdKey("k2").PubKey())
+				return mm
+			})})
+		}
+		for _, d := range []struct {
+			name, to, base string
+			amt           sdkmath.Int
+			height        uint64
+			data          []byte
+		}{
+			{"to=non-ASCII 300 bytes", long, "uxx", sdkmath.NewInt(3), 4, nil},
+			{"to=one space", " ", "uxx", sdkmath.NewInt(3), 4, nil},
+			{"base denom=ibc path", alice, "ibc/27394FB092D2ECCD56123C74F36E4C1F926001CEADA9CA97EA622B25F41E5EB2", sdkmath.NewInt(3), 4, nil},
+			{"base denom=128 characters", alice, "d" + strings.Repeat("x", 127), sdkmath.NewInt(3), 4, nil},
+			{"amount=0", alice, "uxx", sdkmath.NewInt(0), 4, nil},
+			{"amount=2^64-1", alice, "uxx", sdkmath.NewIntFromUint64(math.MaxUint64), 4, nil},
+			{"height=max", alice, "uxx", sdkmath.NewInt(3), math.MaxUint64, nil},
+			{"data=10 kB", alice, "uxx", sdkmath.NewInt(3), 4, bytes.Repeat([]byte{0xfe}, 10_000)},
+			{"from=non-ASCII", alice, "uxx", sdkmath.NewInt(3), 4, nil},
+		} {
+			d := d
+			ops = append(ops, c16L2Op{"Deposit[" + d.name + "]", deliver(func(s *c16L2State, ctx sdk.Context) sdk.Msg {
+				n, _ := s.w.K.GetNextL1Sequence(ctx)
+				from := "l1sender"
+				if d.name == "from=non-ASCII" {
+					from = long
+				}
+				l2d := den
+				if d.base != "uxx" {
+					l2d = ophosttypes.L2Denom(1, d.base)
+				}
+				return opchildtypes.NewMsgFinalizeTokenDeposit(ex, from, d.to, sdk.NewCoin(l2d, d.amt), n, d.height, d.base, d.data)
+			})})
+		}
+	}
 	var ls []engine.Letter
 	for _, op := range ops {
 		ls = append(ls, engine.Letter{Name: op.name, Data: op})
@@ -556,7 +791,7 @@ func (y *c16L2Sys) Step(s *c16L2State, l engine.Letter) (*c16L2State, string, *e
 	ctx, _ := s.ctx.CacheContext()
 	op := l.Data.(c16L2Op)
 	nctx, ok := op.f(s, ctx)
-	c := &c16L2State{ctx: nctx, w: s.w}
+	c := &c16L2State{ctx: nctx, w: s.w, depth: s.depth + 1}
 	if ok {
 		return c, "accepted", nil
 	}
@@ -786,6 +1021,26 @@ func init() {
 				return res
 			}
 			res.Absorb("l2", rep2)
+			// field-deviation family: from the rich L1 root and the L2 root, one unusual-but-legal message, then
+			// the ordinary alphabet
+			y1d := newC16L1Sys()
+			y1d.rich, y1d.dev = true, true
+			repd, err := engine.Explore[*c16L1State](y1d, opts(rc, pick(rc, 2, 3)))
+			if err != nil {
+				res.HarnessErr = err
+				return res
+			}
+			res.Absorb("l1-field-deviations", repd)
+			y2d := &c16L2Sys{dev: true, blank: map[*world.L2]*world.L2{}}
+			repd2, err := engine.Explore[*c16L2State](y2d, opts(rc, pick(rc, 2, 3)))
+			if err != nil {
+				res.HarnessErr = err
+				return res
+			}
+			res.Absorb("l2-field-deviations", repd2)
+			y1.clones.Add(y1d.clones.Load())
+			y2.clones.Add(y2d.clones.Load())
+			res.Coverage["field_deviation_letters"] = map[string]any{"l1": len(y1d.devOps()), "l2": "see search/l2-field-deviations", "what": "every message type once per unusual-but-legal value of one field: boundary numbers and durations, empty / one-space / long non-ASCII / upper-case strings, undeclared and unspecified enum values, nil vs empty, repeated / unsorted / empty list entries"}
 			res.Coverage["round_trips"] = map[string]any{"l1_clones": y1.clones.Load(), "l1_probe_steps_compared": y1.probes.Load(), "l2_clones": y2.clones.Load(), "l2_probe_steps_compared": y2.probes.Load()}
 			res.Coverage["alphabet"] = "L1 (from a chain without any bridge, from a one-bridge root and from a root with two bridges that each have deposits, a final output, a paid withdrawal and a batch-info change): CreateBridge, deposits into two bridges, Propose, Delete, Claim, UpdateBatchInfo (two values), UpdateMetadata, UpdateOracleConfig, UpdateProposer, UpdateChallenger, UpdateParams(fee), Advance; L2: credited and refunded deposits, withdrawal, AddValidator, RemoveValidator (bonded / fresh), UpdateParams, SetBridgeInfo, NextBlock"
 			res.Coverage["oracle"] = "in every distinct state: export module + auth + bank genesis, ValidateGenesis passes, JSON round trip, import into a blank world, re-export byte-identical; the imported module store equals the original's key by key (L1: plus per-bridge counters written out at their default; L2: minus per-height history and the recorded L1 validator set); a fixed probe script (every message type incl. wrong signers, stale/next deposits, claims, deletes, two blocks; every query type) gives identical responses, errors, events, validator updates and final exports on original and clone; L2: InitGenesis's validator updates applied to an empty CometBFT set = bonded set"
@@ -796,6 +1051,14 @@ func init() {
 		Replay: func(kind string, path []string) ([]string, *engine.Violation, error) {
 			if kind == "l2" {
 				return engine.Replay[*c16L2State](&c16L2Sys{blank: map[*world.L2]*world.L2{}}, path)
+			}
+			if kind == "l2-field-deviations" {
+				return engine.Replay[*c16L2State](&c16L2Sys{dev: true, blank: map[*world.L2]*world.L2{}}, path)
+			}
+			if kind == "l1-field-deviations" {
+				y := newC16L1Sys()
+				y.rich, y.dev = true, true
+				return engine.Replay[*c16L1State](y, path)
 			}
 			if kind == "l1-no-bridge-yet" {
 				y := newC16L1Sys()
